@@ -147,7 +147,8 @@ def solitary(case, i, nd, cache):
         n = w.node(tmp_names=_names(case, i), prelude=False)  # the solitary reference run is a fresh process
         r = w.call(n, _req(case, i, nd))
         res = {"ok": r["ok"], "exc": r.get("exc"), "msg": r.get("msg"), "points": r["points"], "upd_points": 0,
-               "dump": logical(raw_dump(w.p(_db(i)))) if r["ok"] else None, "dump2": None}
+               "dump": logical(raw_dump(w.p(_db(i)))) if r["ok"] else None, "dump2": None,
+               "format": core.file_format(w.p(_db(i))) if r["ok"] else None}
         if r["ok"] and u is not None:
             r2 = w.call(n, _upd_req(case, i))
             res["upd_ok"] = r2["ok"]
@@ -233,6 +234,9 @@ def run(case):
                     V.append(viol("C20.independent", "output %d unreadable: %r" % (i, e), kind="output_unreadable"))
                     continue
                 want = sol[i][dump_key]
+                if core.file_format(w.p(_db(i))) != sol[i]["format"]:
+                    V.append(viol("C20.independent", "output %d is a %s database, the solitary run's is a %s one (same call, same arguments)" % (
+                        i, core.file_format(w.p(_db(i))), sol[i]["format"]), kind="journal_mode_differs"))
                 if got != want:
                     what = [t for t in got if got[t] != want.get(t)]
                     V.append(viol("C20.independent", "output %d differs from the solitary run in tables %s after the %s phase (schedule %s)" % (
